@@ -57,6 +57,8 @@ fixed = [
       what='fixed: property=C18 895ee8f Predicates([(1,0,1),(2,0,1)])[0:2] = [(0,0,1),(0,0,2)] was accepted: arriving predicates were checked against the store but not against each other, leaving two predicates with one symbol and different arities'),
  dict(property='C14', status='fixed', commit='439b412', key='C14.R3/readonly/Operator: changing an attribute after initialisation',
       what='fixed: property=C14 439b412 Operator / Quantifier members stayed writable after initialisation (Operator.Negation.arity = 5 succeeded): LexicalEnum used a guard keyed on LexicalAbcMeta._readonly, which is never set; NoSetAttr._clschecker also passed its arguments in the wrong order'),
+ dict(property='C02', status='fixed', commit='4d7848e', key='C02.R8/Rules.NecessityDesignated',
+      what="fixed: property=C02 4d7848e K/D/T/S4/S5 (and the many-valued modal logics) reported 'La, Mb, Mc, M((d & Lb1) & Mc1) |- e' invalid with an unsaturated open branch whose model is not a countermodel: the box rule only served least-applied-to nodes, and once the least-applied one had no world left the others were never taken up again"),
 ]
 CLASSICAL = ('CPL', 'CFOL', 'K', 'D', 'T', 'S4', 'S5')
 def triage(prop, f):
@@ -72,6 +74,10 @@ def triage(prop, f):
         return (f"F15: {d['logic']} model, values set as [{d['scenario']}]: after finish() identity is "
                 + ('not symmetric' if d['kind'] == 'symmetric' else 'not respected by a predicate extension (only whole-sale substitution, one direction)')
                 + ' -- e.g. CFOL model with a=b true evaluates b=a false; repairing the model alone would make the prover\'s open branch for a=b |- b=a (IdentityIndiscernability never rewrites negated predications) fail to build')
+    if prop == 'C14' and k.startswith('C14.R5/non-int spec/'):
+        return ('F18: ' + k.split('/', 2)[2] + ': a coordinate that merely equals an int (1.0, 1+0j: same hash) is refused with TypeError on a cold cache '
+                'but rides on the cached int spec when that one was constructed before -- e.g. Constant(2.0, 57) raises, after Constant(2, 57) it returns the constant; '
+                'not repaired: the lookup sits on the hot construction path and the inputs are non-canonical')
     return None
 out = list(fixed); refused = []
 for p in PROPS:
